@@ -98,6 +98,10 @@ namespace parmcb {
                 for (boost::tie(ui, uiend) = boost::vertices(g); ui != uiend; ++ui) {
                     auto u = *ui;
                     auto uindex = index_map[u];
+                    if (boost::out_degree(u, g) == 0) {
+                        next_tree++;                                   // R14e positive: counter also advances for skipped vertices
+                        continue;
+                    }
                     trees.emplace_back(next_tree, g, boost::get(boost::vertex_index, g), weight_map, u);
                     trees_index_map[uindex] = next_tree;
                     next_tree++;
